@@ -322,7 +322,8 @@ class Harness(cm.BaseA):
     def file_pass(self, W, config):
         """re-run the same history inside a `with` block; the file must hold exactly the replayed records"""
         V = []
-        d = tempfile.mkdtemp(prefix="rtmc-c03-")
+        base = "/dev/shm" if os.path.isdir("/dev/shm") and os.access("/dev/shm", os.W_OK) else None
+        d = tempfile.mkdtemp(prefix="rtmc-c03-", dir=base)
         try:
             path = os.path.join(d, "abort.gwl")
             ws = config["worklists"]["w"]
